@@ -303,6 +303,10 @@ func (c *Context) HandleEnvelop(envelop vivid.Envelop) {
 	currentState := atomic.LoadInt32(&c.state)
 	killingOrKilled := (currentState == killed) || (!envelop.System() && currentState != running) // 是否处于停止中或死亡状态
 	if killingOrKilled && !c.zombie {                                                             // 是否处于僵尸状态
+		// 死信本身无法投递时（例如根 Actor 已停止）直接丢弃，避免死信被反复包装造成无限循环
+		if _, isDeathLetter := envelop.Message().(ves.DeathLetterEvent); isDeathLetter {
+			return
+		}
 		c.system.TellSelf(ves.DeathLetterEvent{
 			Envelope: envelop,
 			Time:     time.Now(),
